@@ -1,0 +1,11 @@
+//go:build verif
+
+package html
+
+import "github.com/Workiva/frugal/compiler/parser"
+
+// VerifTransitiveIncludes exposes transitiveIncludes (the module list of index.html, in the
+// order it is rendered) to the verification harness. Add-only; compiled only with -tags verif.
+func VerifTransitiveIncludes(module *parser.Frugal) []*parser.Frugal {
+	return []*parser.Frugal(transitiveIncludes(module))
+}
